@@ -25,7 +25,10 @@ RULE = (
     "repeated sets) must satisfy load(save(M)) = M. Non-trivial (a): >=2 "
     "non-empty chunks, the definition has a fork, and some event type with "
     "a fork or loop behind it does not occur in the last chunk; (b): some "
-    "count > 1. Distinct by SHA-1 of the JSON case.")
+    "count > 1. One history in eight is a branch-count history (C03's "
+    "family: the same successor types with different multiplicities arrive "
+    "in different chunks), compared by model file and by text up to branch "
+    "order. Distinct by SHA-1 of the JSON case.")
 ASSUMPTIONS = [
     "language equivalence is bounded (loops <=2, 1500 executions)",
     "the chunks of a history use fresh temp directories; files are written "
@@ -98,21 +101,36 @@ def splits_of(case, n):
     return [max(1, n // 2)]
 
 
+class _Bcnt:
+    """stand-in for a materialised case: branch-count job sets (see C03)"""
+
+    def __init__(self, case):
+        import checks.c03 as c03
+        self.jobs = c03.bcnt_jobs(case["bcnt"])
+        self.ast = ps.Seq(())
+        self.too_large = False
+        self.features = ("branch_counts",)
+        self.complete = True
+
+
 def run_history(case, ctx=None):
     import checks.c03 as c03
-    m = pvcase.materialise(case)
+    bcnt = "bcnt" in case
+    m = _Bcnt(case) if bcnt else pvcase.materialise(case)
     if m.too_large or len(m.jobs) < 2:
         if ctx:
             ctx.count("skipped_too_large_or_single_job")
         return
-    fam = pvcase.known_family(case, m, "C04")
+    fam = None if bcnt else pvcase.known_family(case, m, "C04")
     if fam and not case.get("force"):
         if ctx:
             ctx.exclude(fam)
         return
     rng = random.Random(case["sched"] ^ 0xC04)
     jobs = list(m.jobs)
-    if case.get("order"):
+    if bcnt:
+        pass          # the order of the counts is part of the case
+    elif case.get("order"):
         jobs = [jobs[i] for i in case["order"] if i < len(jobs)]
     else:
         rng.shuffle(jobs)
@@ -138,7 +156,11 @@ def run_history(case, ctx=None):
         absent = bool(forky - last_types)
         has_fork = any(isinstance(x, (ps.Fork, ps.Loop))
                        for x in ps.walk(m.ast))
-        cl = pvcase.case_classes(case, m) + [f"chunks={len(chunks)}"]
+        cl = (["branch_counts"] if bcnt else pvcase.case_classes(case, m)) \
+            + [f"chunks={len(chunks)}"]
+        if bcnt:
+            has_fork = True
+            absent = True
         if " " in wf:
             cl.append("job_name_with_space")
         if absent:
@@ -199,7 +221,13 @@ def run_history(case, ctx=None):
                 {t: v[0] for t, v in got.items()}:
             raise Violation("all-at-once model file does not hold the "
                             "successor sets of the jobs it was learned from")
-        msg = c03.equivalent(text_all, text_inc, case["sched"])
+        if bcnt:
+            # outside the reference semantics: compare the texts up to
+            # branch order, branch-count annotations included
+            msg = None if c03.norm_text(text_all) == c03.norm_text(text_inc) \
+                else "texts differ (branch counts)"
+        else:
+            msg = c03.equivalent(text_all, text_inc, case["sched"])
         if msg:
             raise Violation(
                 f"diagram learned in {len(chunks)} chunks "
@@ -298,6 +326,16 @@ def strategies():
                                                min_size=1, max_size=2))))
         c["name"] = draw(st.sampled_from(["wf", "wf", "pay ments", "x.y",
                                           "a b c"]))
+        if draw(st.integers(0, 7)) == 0:
+            # branch-count history: the same successor types with different
+            # multiplicities arrive in different chunks
+            counts = draw(st.lists(st.integers(1, 4), min_size=2, max_size=4,
+                                   unique=True))
+            c = {"bcnt": {"pre": draw(st.integers(1, 2)),
+                          "rep": draw(st.integers(1, 2)),
+                          "tail": draw(st.booleans()), "counts": counts},
+                 "k": 1, "pick": None, "sched": c["sched"],
+                 "splits": c["splits"], "name": c["name"]}
         return c
 
     names = st.sampled_from(["A", "B", "C", "D", "E F", "G.h"])
@@ -320,7 +358,7 @@ def run_shard(ctx):
         if "model" in case:
             run_model_roundtrip(case, ctx)
             return
-        m = pvcase.materialise(case)
+        m = _Bcnt(case) if "bcnt" in case else pvcase.materialise(case)
         n = min(len(m.jobs), 60)
         if 2 <= n <= 6 and not case.get("splits_fixed"):
             # all split points (and all pairs of them) for small sets
